@@ -20,7 +20,7 @@ OBLIGATIONS = [
 B2 = "two records of 1..2 bytes each at any disjoint starts in either order (state carried from one record to the next), line length 2 or 4, whole address space selected, no relocation"
 def f2(name, fmt, tier):
     d = f(name, fmt, B2, tier=tier); d["defs"] = [x for x in d["defs"] if not x.startswith("CF_L")] + ["CF_L=2", "CF_R=2"]
-    d["unwindset"] = ["ProcessFile.4:5", "ProcessFile.0:6", "ProcessFile.1:4", "ProcessFile.2:5", "ProcessFile.3:6", "ProcessFile.5:4", "ProcessFile.6:4"]
+    d["unwindset"] = ["ProcessFile.4:5", "ProcessFile.0:6", "ProcessFile.1:5", "ProcessFile.2:5", "ProcessFile.3:6", "ProcessFile.5:6", "ProcessFile.6:6"]
     return d
 OBLIGATIONS += [f2("intel32_2rec", "eHexFormatIntel32", "quick"), f2("intel16_2rec", "eHexFormatIntel16", "quick"), f2("intel8_2rec", "eHexFormatIntel", "thorough"),
                 f2("motorola_2rec", "eHexFormatMotoS", "thorough"), f2("mos_2rec", "eHexFormatMOS", "thorough")]
